@@ -1,5 +1,6 @@
 import LC.Props.C20Heap
 import LC.Props.C20Sets
+import LC.Props.C20SetsAlgebra
 #print axioms LC.Heap.reachable_inv
 #print axioms LC.Heap.push_spec
 #print axioms LC.Heap.pop_isSome
@@ -21,3 +22,13 @@ import LC.Props.C20Sets
 #print axioms LC.Sets.len_spec
 #print axioms LC.Sets.elements_spec
 #print axioms LC.Sets.order_irrelevant
+#print axioms LC.Sets.empty_spec
+#print axioms LC.Sets.intersect_comm
+#print axioms LC.Sets.union_comm
+#print axioms LC.Sets.unique_comm
+#print axioms LC.Sets.intersect_union_self
+#print axioms LC.Sets.difference_unique_self
+#print axioms LC.Sets.split_by
+#print axioms LC.Sets.unique_eq_union_minus_intersect
+#print axioms LC.Sets.insert_delete
+#print axioms LC.Sets.equal_equiv
